@@ -9,6 +9,15 @@ pub mod c06;
 pub mod c07;
 pub mod c08;
 pub mod c09;
+pub mod c10;
+pub mod c11;
+pub mod c12;
+pub mod c13;
+pub mod c14;
+pub mod c15;
+pub mod c16;
+pub mod c17;
+pub mod c18;
 
 pub fn property(id: &str) -> Option<Property> {
   match id {
@@ -21,6 +30,15 @@ pub fn property(id: &str) -> Option<Property> {
     "C07" => Some(c07::property()),
     "C08" => Some(c08::property()),
     "C09" => Some(c09::property()),
+    "C10" => Some(c10::property()),
+    "C11" => Some(c11::property()),
+    "C12" => Some(c12::property()),
+    "C13" => Some(c13::property()),
+    "C14" => Some(c14::property()),
+    "C15" => Some(c15::property()),
+    "C16" => Some(c16::property()),
+    "C17" => Some(c17::property()),
+    "C18" => Some(c18::property()),
     _ => None,
   }
 }
